@@ -19,7 +19,8 @@ def main():
     meta = {'id': sid, 'properties': props, 'source': src, 'ran': []}
     try:
         demos = [f for f in glob.glob(os.path.join(src, '*')) if f.endswith('_test.go') or (f.endswith('.go') and 'demo' in f)]
-        for d in demos: shutil.copy(d, scratch)
+        pkg = os.environ.get('SEEDTEST_PKG', '.')
+        for d in demos: shutil.copy(d, os.path.join(scratch, pkg))
         demo_names = ' '.join(os.path.basename(d) for d in demos)
         hook = os.path.join(src, 'demo_hook.diff')
         if os.path.exists(hook):
@@ -28,16 +29,16 @@ def main():
             meta['demo_hook'] = 'applied' if rc == 0 else 'did not apply: ' + o[:200]
         run_pat = 'Demo'
         race = ['-race'] if os.environ.get('SEEDTEST_RACE') else []
-        rc0, o0 = sh(['go', 'test'] + race + ['-vet=off', '-count=1', '-run', run_pat, '.'], cwd=scratch, timeout=900)
+        rc0, o0 = sh(['go', 'test'] + race + ['-vet=off', '-count=1', '-run', run_pat, './' + pkg], cwd=scratch, timeout=900)
         meta['demo_without_change'] = 'pass' if rc0 == 0 else 'FAIL'
         rc, o = sh(['git', 'apply', os.path.join(src, 'patch.diff')], cwd=scratch)
         assert rc == 0, 'patch does not apply: ' + o
         rc, o = sh(['go', 'build', './...'], cwd=scratch)
         meta['builds'] = rc == 0
-        rc1, o1 = sh(['go', 'test'] + race + ['-vet=off', '-count=1', '-run', run_pat, '.'], cwd=scratch, timeout=900)
+        rc1, o1 = sh(['go', 'test'] + race + ['-vet=off', '-count=1', '-run', run_pat, './' + pkg], cwd=scratch, timeout=900)
         meta['demo_with_change'] = 'pass' if rc1 == 0 else 'fail'
         meta['ran'].append('go test' + (' -race' if race else '') + ' -run %s (demo files: %s): without change %s, with change %s' % (run_pat, demo_names, meta['demo_without_change'], meta['demo_with_change']))
-        for d in demos: os.remove(os.path.join(scratch, os.path.basename(d)))
+        for d in demos: os.remove(os.path.join(scratch, pkg, os.path.basename(d)))
         if os.path.exists(hook) and meta.get('demo_hook') == 'applied':
             sh(['git', 'apply', '-R', hook], cwd=scratch)
         meta['checks'] = {}
